@@ -927,18 +927,24 @@ func (p *Parser) parseQualifiedName() (string, error) {
 	}
 	name := p.currentToken.Literal
 	p.advance()
+	if !p.isType(models.TokenTypePeriod) {
+		return name, nil
+	}
 
 	// Check for schema.table or db.schema.table
+	var qualified strings.Builder
+	qualified.WriteString(name)
 	for p.isType(models.TokenTypePeriod) {
 		p.advance() // Consume .
 		if !p.isIdentifier() && !p.isNonReservedKeyword() {
 			return "", p.expectedError("identifier after .")
 		}
-		name = name + "." + p.currentToken.Literal
+		qualified.WriteString(".")
+		qualified.WriteString(p.currentToken.Literal)
 		p.advance()
 	}
 
-	return name, nil
+	return qualified.String(), nil
 }
 
 // Accepts IDENT or non-reserved keywords that can be used as table names
